@@ -288,6 +288,7 @@ def run(ctx):
     from sa.rules import C16links
     C16links.run(ctx, repo)
     C16links.run_operands(ctx, repo)
+    C16links.run_link(ctx, repo)
     from sa.rules import stalecopy
     stalecopy.run(ctx, repo, 'C16.6-stale-copy', ('skoolhtml', 'skool2html', 'skoolparser'))
     from sa.rules import memo
